@@ -26,7 +26,7 @@ _PC = "XonshVerif.Proofs.PegCost"
 _TS = "XonshVerif.Model.TokenSource"
 THEOREMS = {
     "C01": _INERT + [("XV.Helpers.kw_defaults_length", _HELP), ("XV.Helpers.defaults_le_positional", _HELP), ("XV.Helpers.args_order", _HELP),
-                     ("XV.Src.kept_no_trivia", _TS), ("XV.Src.kept_sublist", _TS), ("XV.Span.span_end_is_last_significant_token", "XonshVerif.Proofs.Span"), ("XV.Span.span_well_oriented", "XonshVerif.Properties.C04Span")],
+                     ("XV.Src.kept_no_trivia", _TS), ("XV.Src.kept_sublist", _TS), ("XV.Src.kept_keeps_significant", "XonshVerif.Proofs.TokenSourceKeep"), ("XV.Src.kept_no_double_newline", "XonshVerif.Proofs.TokenSourceKeep"), ("XV.Span.span_end_is_last_significant_token", "XonshVerif.Proofs.Span"), ("XV.Span.span_well_oriented", "XonshVerif.Properties.C04Span")],
     "C07": [("XV.WithMacro.with_macro_lines_verbatim", "XonshVerif.Proofs.WithMacro"), ("XV.WithMacro.step_facts", "XonshVerif.Proofs.WithMacro"), ("XV.Macro.loop_partition", _PM), ("XV.Macro.param_is_concat", _PM), ("XV.Macro.concat_is_source_slice", _PM)],
     "C08": [("XV.Tz.token_starts_in_text", "XonshVerif.Properties.C11Tok"), ("XV.Tz.gaps_are_indentation_or_continuation", "XonshVerif.Properties.C08"), ("XV.Tz.between_consecutive_tokens", "XonshVerif.Properties.C08"), ("XV.Tz.after_the_last_token", "XonshVerif.Properties.C08"), ("XV.Tz.before_the_first_token", "XonshVerif.Properties.C08"), ("XV.Tz.Gap.chars", "XonshVerif.Proofs.TokGaps"), ("XV.Tz.tokenizeLines_g", "XonshVerif.Proofs.TokGaps"), ("XV.Rx.m_onlyChars", "XonshVerif.Proofs.RegexChars"),
             ("XV.Tz.all_tokens_are_source_slices", "XonshVerif.Properties.C08"), ("XV.Tz.fstring_tokens_are_source_slices", "XonshVerif.Properties.C08"), ("XV.Rx.m_endsWith", "XonshVerif.Proofs.RegexSuffix"), ("XV.Rx.m_fixedLen", "XonshVerif.Proofs.RegexSuffix"), ("XV.Tz.tokenizeLines_ft", "XonshVerif.Proofs.FstringText"),
@@ -37,7 +37,7 @@ THEOREMS = {
             ("XV.Tz.scanLine_struct", "XonshVerif.Proofs.TokStructure"),
             ("XV.Tz.string_tokens_are_source_slices", "XonshVerif.Properties.C08"), ("XV.Tz.srcText_is_slice_of_source", "XonshVerif.Properties.C08"), ("XV.Tz.tokenizeLines_strings", "XonshVerif.Proofs.StringTiling"),
             ("XV.Tz.pseudo_token_is_source_slice", "XonshVerif.Proofs.Tiling"), ("XV.Tz.handleEndProgs_adv", _PT), ("XV.Tz.nextPseudo_adv", _PT), ("XV.Tz.scanLine_no_loopFuel", _PT)],
-    "C09": [("XV.Tz.measureIndent_spec", "XonshVerif.Properties.C09Indent"), ("XV.Tz.tab_stop", "XonshVerif.Properties.C09Indent"),
+    "C09": [("XV.Tz.indentation_stack_follows_the_reference", "XonshVerif.Properties.C09Stack"), ("XV.Tz.dedents_stack", "XonshVerif.Properties.C09Stack"), ("XV.Src.kept_keeps_significant", "XonshVerif.Proofs.TokenSourceKeep"), ("XV.Src.kept_no_double_newline", "XonshVerif.Proofs.TokenSourceKeep"), ("XV.Tz.measureIndent_spec", "XonshVerif.Properties.C09Indent"), ("XV.Tz.tab_stop", "XonshVerif.Properties.C09Indent"),
             ("XV.Tz.tokens_are_source_slices", "XonshVerif.Properties.C08"), ("XV.Tz.tokenize_structure", "XonshVerif.Properties.C08"),
             ("XV.Ops.first_listed_is_longest", "XonshVerif.Properties.C09"), ("XV.Ops.prefix_of_prefixes", "XonshVerif.Properties.C09")],
     "C11": [("XV.Tz.token_range_error_wellformed", "XonshVerif.Properties.C11Tok"), ("XV.Tz.token_starts_in_text", "XonshVerif.Properties.C11Tok"), ("XV.Tz.tokenizeLines_b", "XonshVerif.Proofs.TokBounds"), ("XV.Helpers.error_wellformed", _HELP)],
